@@ -22,12 +22,12 @@ Proof.
 Qed.
 
 Lemma encs_eq compress bs :
-  Forall (fun b => pb_fmt b = 2) bs -> Forall v2ok bs -> flat_map (enc_batch compress) bs = encs bs.
+  Forall (fun b => pb_fmt b = 2) bs -> flat_map (enc_batch compress) bs = encs compress bs.
 Proof.
-  induction bs as [|b t IH]; intros H2 Hv; [reflexivity|].
-  apply Forall_cons_iff in H2 as [Hb H2]. apply Forall_cons_iff in Hv as [Hvb Hv].
-  cbn [flat_map encs]. fold (encs t). rewrite IH by assumption. f_equal.
-  apply enc1_eq; [exact Hb|apply Hvb].
+  induction bs as [|b t IH]; intros H2; [reflexivity|].
+  apply Forall_cons_iff in H2 as [Hb H2].
+  cbn [flat_map encs]. fold (encs compress t). rewrite IH by assumption. f_equal.
+  apply enc1_eq. exact Hb.
 Qed.
 
 Lemma increasing_app_l lo a b : increasing lo (a ++ b) -> increasing lo a.
@@ -82,8 +82,14 @@ Proof. induction 1 as [|x t Hx _ IH]; [reflexivity|]. cbn. rewrite Hx, IH. refle
 Section Final.
 Variable compress : Z -> list N -> list N.
 Variable decomp : Z -> list N -> option (list N).
+Hypothesis decomp_law : forall c x, decomp c (compress c x) = Some x.
 
-Theorem batch_decode_exact_v2_uncompressed log l o k hwm :
+Notation v2ok := (v2ok compress).
+Notation encs := (encs compress).
+Notation hdr_of := (hdr_of compress).
+Notation plen_of := (plen_of compress).
+
+Theorem batch_decode_exact_v2 log l o k hwm :
   log_ok log -> layout_ok log l ->
   Forall (fun b => pb_fmt b = 2) l -> Forall v2ok l ->
   from_offset l o <> [] -> valid_cut compress l o k -> hwm <> o ->
@@ -110,47 +116,57 @@ Proof.
     rewrite Hlogsplit in Hlog2. apply (increasing_app_r _ _ _ Hlog2). }
   destruct Hchain as [lo0 (C1 & C2 & C3 & C4 & C5)].
   apply Forall_cons_iff in Hv2_bs as [Hv1 Hv2'].
-  pose proof Hv1 as (Hc0 & Hfit1 & _ & _). pose proof Hfit1 as (Hbase & _).
+  pose proof Hv1 as (Hfit1 & _ & _ & Hne1). pose proof Hfit1 as (Hbase & _).
   (* the bytes *)
   unfold fetch_response, fetch_bytes, enc_layout. fold bs. rewrite Ebs.
-  rewrite (encs_eq compress (b1 :: bs') Hfmt_bs (Forall_cons _ Hv1 Hv2')).
+  rewrite (encs_eq compress (b1 :: bs') Hfmt_bs).
   unfold valid_cut in Hcut. fold bs in Hcut. rewrite Ebs in Hcut.
-  rewrite (enc1_eq compress b1) in Hcut by (try exact Hc0; apply (Forall_inv Hfmt_bs)).
+  rewrite (enc1_eq compress b1) in Hcut by (apply (Forall_inv Hfmt_bs)).
   destruct Hcut as [Hk1 Hk2].
   assert (Hk61 : 61 <= Z.of_nat k).
   { unfold enc1 in Hk1. rewrite app_length in Hk1. pose proof (hdr61_len b1 (plen_of b1)) as H61. unfold len in H61. lia. }
   rewrite <- ztake_firstn.
   (* the initial position *)
   set (el0 := if Z.of_nat (length (pb_recs b1)) =? 0 then pb_base b1 + pb_lod b1 else -1).
-  set (p0 := mkPos b1 (pb_recs b1) bs' (Z.of_nat k - 61) (hdr_of b1) o (-1) el0).
+  set (p0 := mkPos b1 (pb_recs b1) bs' (Z.of_nat k - 61) (hdr_of b1) o (-1) el0
+                   (if pb_codec b1 =? 0 then MPlain else MPending) 0).
   assert (Hlenk : len (ztake (Z.of_nat k) (encs (b1 :: bs'))) = Z.of_nat k).
   { rewrite ztake_firstn. unfold len. rewrite firstn_length.
     unfold fetch_bytes, enc_layout in Hk2. fold bs in Hk2. rewrite Ebs in Hk2.
-    rewrite (encs_eq compress (b1 :: bs') Hfmt_bs (Forall_cons _ Hv1 Hv2')) in Hk2. lia. }
+    rewrite (encs_eq compress (b1 :: bs') Hfmt_bs) in Hk2. lia. }
   assert (Hstart : fetch_run decomp fuel o hwm (ztake (Z.of_nat k) (encs (b1 :: bs'))) (Z.of_nat k) false
-                   = batch_run decomp fuel (conc o p0) []).
+                   = batch_run decomp fuel (conc compress o p0) []).
   { unfold fetch_run, new_batch. replace (hwm =? o) with false by lia.
     unfold new_msr. rewrite <- Hlenk at 2.
     change (mkMsr [mkFrame ?i (len ?i) 0 0 hdr0] false 0 (-1)) with (st i 0 hdr0 0 (-1)).
-    cbn [encs flat_map]. fold (encs bs'). unfold enc1. rewrite <- app_assoc.
-    rewrite (ztake_app_ge decomp) by (rewrite hdr61_len; lia). rewrite hdr61_len.
+    cbn [ReaderV2Run.encs flat_map]. fold (encs bs'). unfold enc1. rewrite <- app_assoc.
+    rewrite (ztake_app_ge compress decomp decomp_law) by (rewrite hdr61_len; lia). rewrite hdr61_len.
     rewrite (header_ok b1 (plen_of b1) _ 0 hdr0 0 (-1) Hfit1).
-    unfold conc, p0. cbn [a_b a_rs a_bs a_j a_hdr a_off a_last a_el].
-    unfold erecs, plen_of. rewrite blen_len. reflexivity. }
+    unfold conc, concm, p0. cbn [a_b a_rs a_bs a_j a_hdr a_off a_last a_el a_mode a_lr].
+    fold el0.
+    destruct (pb_codec b1 =? 0) eqn:Ec.
+    - assert (Hpl : payload compress b1 = erecs b1 (pb_recs b1)) by (unfold payload; rewrite Ec; reflexivity).
+      assert (Hp : plen_of b1 = len (erecs b1 (pb_recs b1))) by (unfold ReaderV2Run.plen_of; rewrite Hpl; apply blen_len).
+      unfold ReaderV2Run.hdr_of. rewrite Hpl, Hp. destruct (pb_recs b1); reflexivity.
+    - destruct (pb_recs b1) as [|r1 rs1] eqn:Er1.
+      + exfalso. apply Hne1; [lia|reflexivity].
+      + reflexivity. }
   rewrite Hstart.
   (* refinement to the abstract reader *)
-  assert (Hpos : pos_ok p0).
-  { unfold pos_ok, p0. cbn [a_b a_rs a_bs a_j a_hdr]. split; [lia|]. split; [exact Hv2'|].
-    intros _. split; [exact Hv1|]. split; [reflexivity|apply incl_refl]. }
+  assert (Hpos : pos_ok compress p0).
+  { unfold pos_ok, p0. cbn [a_b a_rs a_bs a_j a_hdr a_mode a_lr]. split; [lia|]. split; [exact Hv2'|].
+    split; [intros _; left; reflexivity|].
+    intros _. split; [exact Hv1|]. split; [reflexivity|]. split; [apply incl_refl|].
+    destruct (pb_codec b1 =? 0) eqn:Ec; [apply Z.eqb_eq; exact Ec|]. split; [apply Z.eqb_neq; exact Ec|reflexivity]. }
   assert (HT : (T p0 < fuel)%nat).
-  { unfold T, p0. cbn [a_rs a_bs]. rewrite (tokens_cons_batch decomp o) in Hfuel. lia. }
-  pose proof (run_refine decomp o fuel p0 [] Hpos HT) as Href.
-  destruct (a_run o fuel p0 []) as [[ms x]|] eqn:Erun; [|contradiction].
+  { unfold T, p0. cbn [a_rs a_bs]. rewrite (tokens_cons_batch compress decomp decomp_law o) in Hfuel. lia. }
+  pose proof (run_refine compress decomp decomp_law o fuel p0 [] Hpos HT) as Href.
+  destruct (a_run compress o fuel p0 []) as [[ms x]|] eqn:Erun; [|contradiction].
   exists ms, x. split; [exact Href|].
   (* the offsets *)
   assert (HInv : Inv o p0).
   { split; [unfold p0; cbn [a_off]; lia|].
-    unfold p0, el0. cbn [a_b a_rs a_bs a_j a_hdr a_off a_last a_el].
+    unfold p0, el0. cbn [a_b a_rs a_bs a_j a_hdr a_off a_last a_el a_mode a_lr].
     unfold small in Hbase.
     destruct (pb_recs b1) as [|r1 rs1] eqn:Er1.
     - exists (pb_base b1 + pb_lod b1 + 1), (pb_base b1 + pb_lod b1 + 1). cbn [length Z.of_nat Z.eqb].
@@ -162,7 +178,7 @@ Proof.
       split; [intros r Hr; pose proof (proj1 (Forall_forall _ _) C4 r Hr); cbn in *; lia|].
       split; [lia|]. split; [lia|]. split; [intros H; discriminate H|]. split; [intros _; lia|].
       intros r _ H. exact H. }
-  destruct (a_run_spec o fuel p0 [] ms x HInv Erun) as (Rp & Rs & G1 & G2 & G3 & G4 & G5).
+  destruct (a_run_spec compress decomp decomp_law o fuel p0 [] ms x HInv Erun) as (Rp & Rs & G1 & G2 & G3 & G4 & G5).
   cbn [rev app] in G2. unfold p0 in G5. cbn [a_off] in G5.
   left. split; [exact G5|]. rewrite G2. unfold mm. f_equal.
   rewrite Hlogsplit. unfold between. rewrite filter_app.
@@ -177,7 +193,7 @@ Proof.
 Qed.
 
 (* the link to L2: such a response is a legal answer in the sense of ReaderProofs.ev_ok *)
-Theorem contract_v2_uncompressed log l k hwm fuel g :
+Theorem contract_v2 log l k hwm fuel g :
   log_ok log -> layout_ok log l ->
   Forall (fun b => pb_fmt b = 2) l -> Forall v2ok l ->
   from_offset l (g_conn g) <> [] -> valid_cut compress l (g_conn g) k -> hwm <> g_conn g ->
@@ -186,7 +202,7 @@ Theorem contract_v2_uncompressed log l k hwm fuel g :
         (GFetch (FData hwm (fetch_response compress l (g_conn g) k) (Z.of_nat k) false)).
 Proof.
   intros H1 H2 H3 H4 H5 H6 H7 H8 _.
-  destruct (batch_decode_exact_v2_uncompressed log l (g_conn g) k hwm H1 H2 H3 H4 H5 H6 H7 fuel H8)
+  destruct (batch_decode_exact_v2 log l (g_conn g) k hwm H1 H2 H3 H4 H5 H6 H7 fuel H8)
     as (ms & f & Hr & Hok).
   exists ms, EEOF, f. split; assumption.
 Qed.
